@@ -24,7 +24,7 @@ const (
 var purePackages = []string{
 	"strings", "unicode", "unicode/utf8", "path/filepath", "path", "go/types", "go/token", "go/ast",
 	"strconv", "math", "slices", "cmp", "errors", "context", "github.com/huandu/xstrings",
-	"github.com/Masterminds/semver/v3", "reflect", "golang.org/x/mod/modfile", "golang.org/x/mod/module",
+	"github.com/Masterminds/semver/v3", "golang.org/x/mod/modfile", "golang.org/x/mod/module",
 }
 
 var fsMutators = map[string]bool{
@@ -102,7 +102,7 @@ func (x *Exec) externalEffect(fn *types.Func) effect {
 		pp == "gopkg.in/yaml.v3" || pp == "go/format" || pp == "golang.org/x/tools/imports" || pp == "net/http" ||
 		strings.HasPrefix(pp, "github.com/jedib0t/go-pretty") || pp == "golang.org/x/term" || pp == "sort" || pp == "sync" ||
 		strings.HasPrefix(pp, "github.com/go-git/go-git") || pp == "github.com/spf13/viper" || pp == "os" || pp == "github.com/go-viper/mapstructure/v2" ||
-		strings.HasPrefix(pp, "github.com/stretchr/testify") || pp == "math/rand/v2" || pp == "time" || pp == "testing" {
+		strings.HasPrefix(pp, "github.com/stretchr/testify") || pp == "math/rand/v2" || pp == "time" || pp == "testing" || pp == "runtime/debug" || pp == "runtime" {
 		return effAlloc // opaque objects: results havocked, our heap untouched (assumption listed)
 	}
 	return effUnknown
@@ -116,10 +116,25 @@ func (x *Exec) callExternal(call *ast.CallExpr, fn *types.Func, recv *Term, args
 		x.endExit(st, args[0], "os.Exit", call.Pos())
 		return nil
 	}
+	if recv != nil {
+		if why, ok := x.maybeNil[recv.S]; ok {
+			x.safety(st, "nil-deref", not(eq(*recv, intLit(0))), "method call on a value that "+why+" may return as nil: "+x.exprString(call.Fun), call.Pos())
+		}
+	}
+	switch name {
+	case "gopkg.in/yaml.v3.(*Decoder).Decode", "github.com/knadh/koanf/v2.(*Koanf).Unmarshal", "github.com/knadh/koanf/v2.(*Koanf).UnmarshalWithConf", "gopkg.in/yaml.v3.Unmarshal":
+		x.havocAll(st)
+	}
 	if h, ok := specialExternals[name]; ok {
 		return h(x, call, fn, recv, args, st)
 	}
 	return x.applyExternal(call, fn, x.externalEffect(fn), recv, args, st)
+}
+
+// mayReturnNil: externals whose result is legitimately nil for some inputs (DESIGN.md 4.1 nil-deref).
+var mayReturnNil = map[string]bool{
+	"go/types.(*Scope).Lookup": true, "go/types.(*TypeName).Pkg": true, "go/types.(*Named).TypeArgs": true,
+	"go/types.(*Var).Pkg": true, "go/types.(*Func).Pkg": true,
 }
 
 type extHandler func(x *Exec, call *ast.CallExpr, fn *types.Func, recv *Term, args []Term, st *State) []Term
@@ -153,6 +168,27 @@ func init() {
 	}
 	specialExternals["fmt.Errorf"] = nonNilErr
 	specialExternals["errors.New"] = nonNilErr
+	// ast.Walk(v, node) calls v.Visit repeatedly: whatever Visit's contract assigns may change
+	specialExternals["go/ast.Walk"] = func(x *Exec, call *ast.CallExpr, fn *types.Func, recv *Term, args []Term, st *State) []Term {
+		vt := x.typeOf(call.Args[0])
+		obj, _, _ := types.LookupFieldOrMethod(vt, true, x.top().pkg.Types, "Visit")
+		m, _ := obj.(*types.Func)
+		var c *Contract
+		if m != nil {
+			c = x.w.ByFunc[m.Origin()]
+		}
+		if c == nil || !c.HasAssign {
+			st.approx = append(st.approx, "ast.Walk with a visitor without contract")
+			x.havocAll(st)
+			return nil
+		}
+		recvV := x.eval(call.Args[0], st)
+		for _, a := range c.Assigns {
+			env := x.calleeEnv(c, st, nil, &recvV, []Term{intLit(0)}, nil)
+			x.havocLocation(env, st, a)
+		}
+		return nil
+	}
 	// sort.Slice / sort.Strings / slices.Sort on a local: result is a permutation we do not model; handled by contracts of callers
 }
 
@@ -178,6 +214,12 @@ func (x *Exec) applyExternal(call *ast.CallExpr, fn *types.Func, eff effect, rec
 			v := x.ctx.App(sym, x.sortOf(rt), all...)
 			v = x.name(st, "ext", v)
 			x.extResultFacts(st, fn, i, v, rt)
+			if mayReturnNil[name] {
+				if x.maybeNil == nil {
+					x.maybeNil = map[string]string{}
+				}
+				x.maybeNil[v.S] = name
+			}
 			out = append(out, v)
 		}
 		return out
@@ -226,6 +268,14 @@ func (x *Exec) extResultFacts(st *State, fn *types.Func, i int, v Term, rt types
 	switch rt.Underlying().(type) {
 	case *types.Pointer, *types.Map:
 		st.assume(mk(SBool, "<", v, st.alloc))
+	}
+	// pathlib's path arithmetic never returns a nil *Path
+	if pkgPathOf(fn) == "github.com/chigopher/pathlib" {
+		if p, ok := rt.(*types.Pointer); ok {
+			if n, ok := p.Elem().(*types.Named); ok && n.Obj().Name() == "Path" && i == 0 {
+				st.assume(mk(SBool, ">", v, intLit(0)))
+			}
+		}
 	}
 }
 
